@@ -261,6 +261,18 @@ def is_object_type(ty: str) -> bool:
     return ty not in gen.TYPES
 
 
+def query_case(rng, be, table):
+    """gen.query_case, minus the cases in which the harness's own accessor `.pt()` (used to consume an object-valued
+    result) would collide with an injected FUNCTION of the case that is called `pt` — that style mismatch would be
+    the harness's, not the translator's."""
+    for _ in range(50):
+        c = gen.query_case(rng, be, table)
+        names = {s["name"] for s in c.get("specs", [])}
+        if not ("pt" in names and any(is_object_type(s["retType"]) for s in c.get("specs", []))):
+            return c
+    return c
+
+
 def wrap_of(t: Dict[str, Any], tab: Dict[str, Any]) -> Optional[str]:
     """How the column is consumed so that it can be written to the tree: a collection is counted (or, for a
     collection of objects, the pt() of its elements summed), an object-valued result has its pt() taken."""
@@ -611,7 +623,7 @@ def generated_cases(ctx):
         yield "find", gen.find_case(rng)
     for _ in range(600 if quick else 7000):
         be = rng.choice(["atlas"] * 8 + ["cms_aod", "cms_miniaod"])
-        yield "query", gen.query_case(rng, be, gen_table(be))
+        yield "query", query_case(rng, be, gen_table(be))
 
 
 def run(ctx):
@@ -726,7 +738,7 @@ def search(ctx, broken):
     if usable:
         for _ in range(1500):
             be = rng.choice(usable)
-            cases.append(("search", gen.query_case(rng, be, gen_table(be))))
+            cases.append(("search", query_case(rng, be, gen_table(be))))
         for e in ctx.known_entries("fixed"):
             for c in (e["input"]["cases"] if "cases" in e["input"] else [e["input"]]):
                 cases.insert(0, ("search", c))
